@@ -355,6 +355,10 @@ SUBS = [
         rule="Hypothesis text over all of Unicode (NUL, surrogates, astral) x widths 1..300, boundary lengths over-weighted"),
     Sub("read-bytes", run_read, strategy=bytes_strategy, budget=(3000, 200000), shards=(2, 16),
         rule="Hypothesis byte strings of exactly the field width: random, text+NUL+garbage tail, NUL-free, undefined cp1252 bytes"),
+    Sub("fuzz:read-bytes", run_read, kind="fuzz", fuzz_target=("hypothesis", "read-bytes"), budget=(0, 200000), shards=(1, 2),
+        rule="Atheris/libFuzzer driving the read-bytes Hypothesis test through fuzz_one_input (library instrumented)"),
+    Sub("fuzz:write-text", run_write_text, kind="fuzz", fuzz_target=("hypothesis", "write-text"), budget=(0, 200000), shards=(1, 2),
+        rule="Atheris/libFuzzer driving the write-text Hypothesis test through fuzz_one_input (library instrumented)"),
     Sub("block-sites", run_sites, strategy=sites_strategy, budget=(1500, 40000), shards=(2, 16),
         rule="each of the 9 string fields of item classes / table entries with text of width-1 (must store, next field intact), >= width or non-cp1252 (ValueError)"),
 ]
